@@ -27,6 +27,19 @@ macro_rules! lock_proof {
         #[kani::stub(std::fs::OpenOptions::open, stubs::open_lock_file)]
         #[kani::stub(<std::fs::File as fs2::FileExt>::try_lock_exclusive, stubs::try_lock_exclusive)]
         #[kani::stub(<std::fs::File as fs2::FileExt>::unlock, stubs::flock_unlock)]
+        // not reached when the lock is refused, but statically reachable from RaftLog::open
+        #[kani::stub(crate::raft_log::wal::flush_worker::FlushWorker::spawn, crate::raft_log::wal::flush_worker::kani_h_a_worker::stub_spawn)]
+        #[kani::stub(crate::raft_log::raft_log::RaftLog::load_chunk_ids, crate::raft_log::raft_log::kani_h_a_raftlog::stub_load_chunk_ids)]
+        #[kani::stub(crate::config::Config::chunk_path, stubs::chunk_path)]
+        #[kani::stub(crate::chunk::Chunk::open_chunk_file, stubs::open_chunk_file)]
+        #[kani::stub(crc32fast::Hasher::new, stubs::crc_new)]
+        #[kani::stub(<&std::fs::File as std::io::Write>::write, stubs::file_write)]
+        #[kani::stub(<&std::fs::File as std::io::Read>::read, stubs::file_read)]
+        #[kani::stub(std::fs::File::sync_all, stubs::file_sync_all)]
+        #[kani::stub(std::fs::File::set_len, stubs::file_set_len)]
+        #[kani::stub(std::fs::File::metadata, stubs::file_metadata)]
+        #[kani::stub(std::fs::Metadata::len, stubs::metadata_len)]
+        #[kani::stub(<std::fs::File as std::os::unix::fs::FileExt>::read_at, stubs::file_read_at)]
         fn $name() $body
     };
 }
